@@ -120,7 +120,7 @@ def run(model: Model, rep: Report, tier: str) -> None:
         "are the same random variable in every SCM, acyclicity and probability preservation are the core of C18 and are NOT decided by any static argument here."
     )
     rep.trusted_base = ["Shpitser & Pearl 2008, Lemmas 24/25", "C14 (subgraph, ancestors_inclusive, from_edges)"]
-    rep.floors = {"R18.1": 3, "R18.3": 1, "R18.4": 12, "R18.5": 2}
+    rep.floors = {"R18.1": 3, "R18.3": 1, "R18.4": 12, "R18.5": 2, "R18.6": 1}
     r18_renaming_follows_merge(model, rep)
     load_reference(model, REF, "c18_ref.py")
     sa = SetAlg(rewriter(graph_rewrite, c18_rewrite))
